@@ -179,9 +179,29 @@ class Probe(SourceProxy):
 
     def _exit(self):
         # This is called on the root probe by the __exit__ method of a child.
+        self._exited = True
         self._ol.__exit__(None, None, None)
         global_probes.remove(self)
         self._uninstall_tooling()
+
+    def __exit__(self, exc_type=None, exc=None, tb=None):
+        if self._root is not self:
+            return super().__exit__(exc_type, exc, tb)
+        try:
+            super().__exit__(exc_type, exc, tb)
+        finally:
+            # Completing the stream may raise (a subscriber that fails, a
+            # reduction over an empty stream): the probe is deactivated
+            # nonetheless
+            if self._activated and not getattr(self, "_exited", False):
+                for obs in list(self._observers):
+                    try:
+                        obs.on_completed()
+                    except BaseException:
+                        # The first failure is the one that propagates
+                        pass
+                self._observers.clear()
+                self._exit()
 
     def activate(self):
         """Activate this probe."""
